@@ -8,6 +8,7 @@ package main
 
 import (
 	"bytes"
+	"context"
 	"encoding/binary"
 	"encoding/json"
 	"flag"
@@ -149,6 +150,7 @@ func runB(param json.RawMessage, ctx *explore.Ctx, viols *[]xrun.Viol) string {
 	a := inst.New("a", bkt, inst.Opt{Native: c.Native})
 	defer a.Destroy()
 	gen := 0
+	genBeforeTxn := 0
 	images := map[int64]string{} // LMDB transaction id -> expected snapshot image
 	commit := func() {
 		gen++
@@ -196,7 +198,16 @@ func runB(param json.RawMessage, ctx *explore.Ctx, viols *[]xrun.Viol) string {
 	}
 	commit()
 	if !c.Native {
-		// steady state: mirrored once
+		// steady state: mirrored once, and once more with nothing to capture (that write transaction is empty: LMDB
+		// does not record it and hands its id to the next committer)
+		for n := 0; n < 2; n++ {
+			if _, err := a.Send(); err != nil {
+				panic(err)
+			}
+		}
+		// ... then the syncer process is restarted on the same LMDB (a new Syncer object) and makes its first
+		// snapshot, again with nothing to capture
+		a = inst.New("a", bkt, inst.Opt{Native: false, Env: a.Env})
 		if _, err := a.Send(); err != nil {
 			panic(err)
 		}
@@ -216,9 +227,24 @@ func runB(param json.RawMessage, ctx *explore.Ctx, viols *[]xrun.Viol) string {
 	commits := 0
 	others := 0
 	inOther := false
+	sctx, cancelSend := context.WithCancel(context.Background())
+	defer cancelSend()
+	cancelled := false
+	genAtTxnStart := -1     // shadow mode: generation committed when the dump (write) transaction starts
+	bkt.IgnoreCancel = true // a backend that does not look at the context: whatever SendOnce hands it gets stored
 	verifhook.SetYield(func(point, name string) {
 		if inOther {
 			return
+		}
+		if !cancelled && (point == "readdbi.entry" || point == "send.afterTxn" || point == "send.beforeStore") && commits == 0 && others == 0 {
+			// shutdown while the snapshot is being made
+			if ctx.Choose([]explore.Option{{Label: "continue@" + point + ":" + name}, {Label: "cancel@" + point + ":" + name, Cost: 1}}) == 1 {
+				cancelled = true
+				cancelSend()
+			}
+		}
+		if point == "send.afterTxn" && genAtTxnStart < 0 {
+			genAtTxnStart = genBeforeTxn
 		}
 		if point == "send.beforeStore" && others == 0 {
 			if ctx.Choose([]explore.Option{{Label: "continue@" + point}, {Label: "other-database-dumps@" + point, Cost: 1}}) == 1 {
@@ -246,11 +272,24 @@ func runB(param json.RawMessage, ctx *explore.Ctx, viols *[]xrun.Viol) string {
 			commits++
 			commit()
 		}
+		if point == "send.beforeTxn" {
+			genBeforeTxn = gen
+		}
 	})
 	nBefore := len(bkt.Names())
-	id, err := a.Send()
+	id, err := a.SendCtx(sctx)
 	verifhook.SetYield(nil)
-	if err != nil {
+	if cancelled {
+		// a cancelled SendOnce may fail or may still complete; what it must not do is upload something that is not
+		// a complete image
+		if err != nil && len(bkt.Names()) == nBefore {
+			return "cancelled-nothing-uploaded"
+		}
+		if err != nil {
+			add("cancelled-send-uploaded-and-failed", fmt.Sprintf("SendOnce returned %v but a blob was stored", err))
+			return "error"
+		}
+	} else if err != nil {
 		add("send-error", err.Error())
 		return "error"
 	}
@@ -290,6 +329,9 @@ func runB(param json.RawMessage, ctx *explore.Ctx, viols *[]xrun.Viol) string {
 			if i := strings.Index(line, " = 67656e"); i >= 0 { // "gen" in hex
 				gens[strings.Fields(line[i+3:])[0]] = true
 			}
+		}
+		if want := fmt.Sprintf("67656e3%d", genAtTxnStart); genAtTxnStart > 0 && len(gens) == 1 && !gens[want] {
+			add("snapshot-is-image-of-an-older-transaction:"+mode, fmt.Sprintf("the dump transaction started after application transaction %d was committed, but the snapshot holds the values of %v:\n%s", genAtTxnStart, gens, got))
 		}
 		if len(gens) != 1 {
 			add("snapshot-mixes-transactions:"+mode, fmt.Sprintf("values of %d different application transactions in one snapshot:\n%s", len(gens), got))
